@@ -8,7 +8,7 @@ import (
 
 func init() {
 	viewCfg := func(r *rng.R, local int) kv.Config {
-		return kv.Config{Disk: local%2 == 1, Buckets: 1, Handles: 1, Colls: 2}
+		return kv.Config{Disk: local%2 == 1, Buckets: 1, Handles: 1 + (local/2)%2, Colls: 2}
 	}
 	// ---------------------------------------------------------------- C12
 	vo := kvOpts{Cfg: viewCfg}
